@@ -97,6 +97,18 @@ def check(entry, seed):
     out['default_construct_error'] = err
     _, e_unknown = construct(**{'no_such_parameter_xyz': 1})
     out['unknown_param_error'] = e_unknown
+    # names that only a base class declares (e.g. geometry for a geometry wrapper, a parameter the wrapper fixes) are unknown to this class
+    inherited = []
+    for b in cls.__mro__[1:]:
+        for nm in (getattr(b, 'parameters', None) or {}):
+            if nm not in declared and nm not in inherited:
+                inherited.append(nm)
+    out['inherited_only'] = {}
+    for nm in inherited[:4]:
+        val = getattr(cls, nm, 1)
+        for v in ([val] if val in (1, 2, 3) else [val])[:1] + ([3 if val != 3 else 1] if nm == 'geometry' else []):
+            _, e = construct(**{nm: v})
+            out['inherited_only']['%s=%r' % (nm, v)] = e
     out['base_init_calls'] += [dict(r) for r in _seen]
     del _seen[:]
     if s is None:
